@@ -986,7 +986,10 @@ class C06(Check):
                   "random programs - with priorities < 1 and a scripted Scheduler._random, and with every blocking operation constructed in "
                   "each calling convention its class accepts (fd sets as list/tuple/set/dict view/None, timeout and timeIsAbsolute positional "
                   "or keyword, int or float seconds, Timer positional/keyword/absolute/started later/with callback arguments, tasks as "
-                  "BaseTask subclass or Task(target=...), one operation object shared by several tasks) - comparing the full trace (task, step, virtual time, value/exception received, raw hub value, wake time), "
+                  "BaseTask subclass or Task(target=...), one operation object shared by several tasks), with every `raise` drawn from a sweep of "
+                  "Exception subclasses and, as a separate yield, of BaseException-only classes (SystemExit, KeyboardInterrupt, "
+                  "GeneratorExit, a user class) raised by a task step, a sub-task step, a blocking operation's execute() or a timer "
+                  "callback - comparing the full trace (task, step, virtual time, value/exception received, raw hub value, wake time), "
                   "timer firings, cycle count and final queues.  Threaded hub: the same task "
                   "programs run on Scheduler(threaded_selecthub=True) with the scheduler thread and the hub thread under the forced thread "
                   "scheduler (sequential, random and PCT schedules, virtual time); the property oracle judges every run, and for program "
@@ -998,7 +1001,14 @@ class C06(Check):
                   "are about that code's model, but the interleavings of the two threads are sampled (a few schedules per program, switches "
                   "at synchronisation operations only), not proved; what is compared there is the per-task projection, not the global order.  "
                   "Out of scope: real file descriptors (EpollSelect is only compared with select.select on pipes, as plain differential "
-                  "testing), CallBlocking worker threads, locks and statement-level races (C07).  Limits of what is proved: (1) wake_is_requested_trace excludes Send (re-registered after a partial write, "
+                  "testing), CallBlocking worker threads, locks and statement-level races (C07).  Timers built with started=False and started later by a task (relative and absolute deadlines, cancel before/after "
+                  "start(), delay 0) and timer callbacks that cancel timers or raise are NOT in the model: those cases are judged by the "
+                  "oracle alone (never fired before start() + delay, never after cancel / False / a raising callback, clock never "
+                  "advanced past a due timer), and timer_not_early is a theorem about timers started at construction, the only form "
+                  "POX itself uses.  The model has one kind of `raise`; a BaseException that is not an Exception is the same for a "
+                  "top-level task and, in a sub-task, is mapped to 'the sub-task is never scheduled again' (AgainTask.run_again forwards "
+                  "only Exception, so its wrapper dies and the caller stays blocked for ever - recoco's behaviour, no other task is "
+                  "affected).  Limits of what is proved: (1) wake_is_requested_trace excludes Send (re-registered after a partial write, "
                   "which restarts its timeout, as the code does) and sub-tasks (their resumes are those of the AgainTask wrapper).  "
                   "(2) ready_returns needs the descriptor not to be waited on by another task in the same set (the hub keeps one task per "
                   "descriptor; the later registration shadows the earlier - the code's behaviour).  "
@@ -1010,7 +1020,8 @@ class C06(Check):
                   "waiters.")
     rule = ("case = (program table over the yield vocabulary, task list, timers, fd readiness times, socket scripts, start time, cycle budget"
             "[, mode=threaded + schedule (sequential|random|PCT, seed)]); corpus = 40 hand-written scenarios (incl. falsy results 0/False/b""/None, several deadlines and "
-            "descriptors due in one hub sweep, timer callbacks that cancel timers, operations whose execute() raises) + exhaustive scopes (every "
+            "descriptors due in one hub sweep, timer callbacks that cancel timers or raise, operations whose execute() raises, BaseException-only classes in tasks / "
+            "sub-tasks / operations, timers started later by a task) + exhaustive scopes (every "
             "assignment of programs of <= L yields over an alphabet to N ordered tasks) + the threaded scenarios x 6 schedules + two threaded "
             "3-task scopes; non-trivial = the real run contains a timed resume, a sub-task step or a timer firing")
 
